@@ -322,6 +322,9 @@ def build_file(spec):
             se = {"name": cs["name"].encode("utf8"), "type": TYPES.index(cs["ptype"]), "repetition_type": 1 if cs.get("optional") else 0}
             if cs.get("type_length") is not None:
                 se["type_length"] = cs["type_length"]
+            if cs.get("scale") is not None:
+                se["scale"] = cs["scale"]
+                se["precision"] = cs["precision"]
             if cs.get("converted") is not None:
                 se["converted_type"] = cs["converted"]
             if cs.get("logical") is not None:
